@@ -1,11 +1,11 @@
-\* M, thorough: reduced instance XLEN = 8, four registers, 16 bytes of memory; one instruction from every initial state
+\* M, thorough: reduced instance XLEN = 8, all 64 register triples, all boundary immediates
 CONSTANTS
   XLEN = 8
   NREG = 4
   MEMN = 16
   Dev = {}
   Triples <- TriplesAll
-  MCVals <- ValsMore
+  MCVals <- ValsFew
   ImmSel = "all"
   GPats = {}
   GVals = {}
